@@ -7,7 +7,7 @@ P=$(readlink -f "$1"); ID=$2; TIER=${3:-quick}; TESTS=${4:-}
 W=$(mktemp -d /tmp/mut-XXXXXX)
 git -C /repo worktree add -q --detach "$W" HEAD || exit 2
 trap 'git -C /repo worktree remove --force "$W" >/dev/null 2>&1; rm -rf "$W"' EXIT
-git -C "$W" apply "$P" || { echo "PATCH DOES NOT APPLY"; exit 2; }
+git -C "$W" apply "$P" 2>/dev/null || { git -C "$W" apply --3way "$P" >/dev/null 2>&1 && git -C "$W" reset -q; } || { echo "PATCH DOES NOT APPLY"; exit 2; }
 if [ "$TESTS" = "--tests" ]; then
   /verif/tools/run_baseline.sh "$W" | tail -5
 fi
